@@ -292,11 +292,13 @@ class Registry(asset.Registry, alias='posix'):
         release = package.manifest.version
         path = self._path.package(project, release)
         path.parent.mkdir(parents=True, exist_ok=True)
+        temp = path.with_name(f'.{path.name}.{uuid.uuid4().hex}')  # invisible until complete
         if package.path.is_dir():
-            shutil.copytree(package.path, path, ignore=lambda *_: {'__pycache__'})
+            shutil.copytree(package.path, temp, ignore=lambda *_: {'__pycache__'})
         else:
             assert package.path.is_file(), 'Expecting file package'
-            path.write_bytes(package.path.read_bytes())
+            temp.write_bytes(package.path.read_bytes())
+        temp.rename(path)
 
     def read(
         self,
@@ -349,5 +351,7 @@ class Registry(asset.Registry, alias='posix'):
                 raise asset.Level.Invalid(f'State {sid} not staged')
             target = self._path.state(sid, project, release, generation)
             source.rename(target)
-        with path.open('wb') as tagfile:
+        temp = path.with_name(f'.{path.name}.{uuid.uuid4().hex}')  # the generation gets listed only with a complete tag
+        with temp.open('wb') as tagfile:
             tagfile.write(tag.dumps())
+        temp.rename(path)
